@@ -88,10 +88,11 @@ Definition set_regs s v := mkSt (t_work s) (t_keep s) (t_check s) (active s) (cl
 
 Definition is_dest (k : rkind) : bool := kind_eqb k KDest.
 
-(* close_all_resources: is_closed := true, the publication / exclusive publication / subscription / counter
-   maps are cleared (none of their entries has a live handle in this model), the close handlers run.
-   destination_state_by_correlation_id is not cleared. *)
+(* close_all_resources: runs once (`if self.is_closed.swap(true) { return; }`): is_closed := true, the publication /
+   exclusive publication / subscription / counter maps are cleared (none of their entries has a live handle in this
+   model), the close handlers run.  destination_state_by_correlation_id is not cleared.  A second call does nothing. *)
 Definition close_all (s : st) : st :=
+  if closed s then s else
   mkSt (t_work s) (t_keep s) (t_check s) (active s) true (hbc s) (vals s) (next_id s)
        (filter (fun r => is_dest (r_kind r)) (regs s)).
 
@@ -100,6 +101,8 @@ Definition L_CLOSE : Z := 0.              (* on_close_client handler *)
 Definition L_SERVICE_TIMEOUT : Z := 1.    (* error handler: TimeoutBetweenServiceCallsOverTimeout *)
 Definition L_DRIVER_INACTIVE : Z := 2.    (* error handler: DriverInteractionError::WasInactive *)
 Definition L_HEARTBEAT_LOST : Z := 3.     (* error handler: ClientHeartbeatNotActive *)
+(* what close_all_resources adds to the handler log: the close handlers, unless already closed *)
+Definition close_log (s : st) : list Z := if closed s then [] else [L_CLOSE].
 
 (* now > a + b with the source's u64 addition *)
 Definition gt_sum (m : mode) (now a b : Z) : outcome bool :=
@@ -136,7 +139,7 @@ Definition keepalive (m : mode) (c : cfg) (s : st) (now hb : Z) (ctrs : list ctr
   let '(s2, l2) :=
     match hbc s1 with
     | Some id => if is_active (c_cid c) ctrs id then (set_hb s1 id (wrap64 now), [])
-                 else (close_all s1, [L_CLOSE; L_HEARTBEAT_LOST])
+                 else (close_all s1, close_log s1 ++ [L_HEARTBEAT_LOST])
     | None => match find_counter (c_cid c) ctrs with
               | Some id => (set_hb s1 id (wrap64 now), [])
               | None => (s1, [])
@@ -147,7 +150,7 @@ Definition keepalive (m : mode) (c : cfg) (s : st) (now hb : Z) (ctrs : list ctr
 (* on_heartbeat_check_timeouts: returns the state, the handler log and `result as usize` *)
 Definition check_timeouts (m : mode) (c : cfg) (s : st) (now hb : Z) (ctrs : list ctr) : outcome (st * list Z * Z) :=
   late <- gt_sum m now (t_work s) (inter_ms c) ;;
-  let '(s1, l1) := if late then (close_all s, [L_CLOSE; L_SERVICE_TIMEOUT]) else (s, []) in
+  let '(s1, l1) := if late then (close_all s, close_log s ++ [L_SERVICE_TIMEOUT]) else (s, []) in
   let s2 := set_t_work s1 now in
   due <- gt_sum m now (t_keep s2) KEEPALIVE_TIMEOUT_MS ;;
   r <- (if due then keepalive m c s2 now hb ctrs else Ok (s2, [])) ;;
